@@ -147,7 +147,8 @@ impl Scenario for EventScenario {
         let ntypes = rng.urange(1, 4);
         cfg.points = gen_points(rng, ntypes, 3, false, true);
         let len = rng.urange(5, 40);
-        let script = gen_event_script(rng, &cfg, len);
+        let mut script = gen_event_script(rng, &cfg, len);
+        crate::verif::props::gen_out::sprinkle_splits(rng, &mut script);
         SoutCase {
             cfg,
             ctrl: CtrlAnswers::AllSuccess,
